@@ -47,9 +47,9 @@ impl Style {
 /// columns; otherwise, when markers are kept, `-`, a blank or `+` by the kind of the line - each in the style of that kind
 pub open spec fn kept_marker(s: State, config: &Config) -> Option<(AtStyle, Seq<char>)> {
     match s {
-        State::HunkMinus(DiffType::Combined(MergeParents::Prefix(p), InMergeConflict::No), _) => Some((config.minus_style.ansi_term_style, p@)),
-        State::HunkZero(DiffType::Combined(MergeParents::Prefix(p), InMergeConflict::No), _) => Some((config.zero_style.ansi_term_style, p@)),
-        State::HunkPlus(DiffType::Combined(MergeParents::Prefix(p), InMergeConflict::No), _) => Some((config.plus_style.ansi_term_style, p@)),
+        State::HunkMinus(DiffType::Combined(MergeParents::Prefix(p, _), InMergeConflict::No), _) => Some((config.minus_style.ansi_term_style, p@)),
+        State::HunkZero(DiffType::Combined(MergeParents::Prefix(p, _), InMergeConflict::No), _) => Some((config.zero_style.ansi_term_style, p@)),
+        State::HunkPlus(DiffType::Combined(MergeParents::Prefix(p, _), InMergeConflict::No), _) => Some((config.plus_style.ansi_term_style, p@)),
         State::HunkMinus(_, _) => if config.keep_plus_minus_markers { Some((config.minus_style.ansi_term_style, "-"@)) } else { None },
         State::HunkZero(_, _) => if config.keep_plus_minus_markers { Some((config.zero_style.ansi_term_style, " "@)) } else { None },
         State::HunkPlus(_, _) => if config.keep_plus_minus_markers { Some((config.plus_style.ansi_term_style, "+"@)) } else { None },
